@@ -166,6 +166,8 @@ def install_models(spec):
                     meta['indexes'] = [dbrig.make_index(d) for d in m['indexes']]
                 if m.get('constraints'):
                     meta['constraints'] = [dbrig.make_constraint(d) for d in m['constraints']]
+                if m.get('comment'):
+                    meta['db_table_comment'] = m['comment']
                 attrs['Meta'] = type('Meta', (), meta)
                 out[a['id']].append(type(str(m['name']), (models.Model,), attrs))
     apps.clear_cache()
